@@ -1,1 +1,167 @@
 // replay hooks for src/commit.rs (included as a child module `verif_replay` of that file)
+//
+// C15 exploration (bounded; needs the cfg-guarded fault hook `crate::verif_fault` in src/lib.rs + src/wal/mod.rs):
+// one I/O failure is injected at the n-th WAL append / flush / fsync of a small workload (transient: that call
+// only; persistent: that call and every later one).  Checked on the real Tree:
+//   (1) a commit that returned an error left NO trace: none of its writes is read by a fresh reader - right after
+//       the failure, at the end of the workload, and after a crash + reopen of the directory;
+//   (2) the store keeps accepting transactions afterwards or refuses them with an error (never hangs, never panics);
+//   (3) every commit acknowledged before or after the failure is read back at the end AND after a process-crash
+//       image of the directory is reopened.
+// Bound (stated): 4 commits with immediate durability (keys a, b, a, c - the third overwrites the first), fault
+// at call 0..5 of each of the three WAL sites, transient and persistent (36 fault placements + the fault-free run).
+// THIS DRIVER MUST RUN ALONE IN ITS TEST PROCESS (the fault switch is global).
+use super::*;
+use crate::{Durability, TreeBuilder};
+
+fn copy_dir_all(src: &std::path::Path, dst: &std::path::Path) -> std::io::Result<()> {
+	std::fs::create_dir_all(dst)?;
+	for entry in std::fs::read_dir(src)? {
+		let entry = entry?;
+		let target = dst.join(entry.file_name());
+		if entry.file_type()?.is_dir() {
+			copy_dir_all(&entry.path(), &target)?;
+		} else {
+			std::fs::copy(entry.path(), &target)?;
+		}
+	}
+	Ok(())
+}
+
+#[tokio::test(flavor = "multi_thread", worker_threads = 2)]
+async fn fault_enum() {
+	let mut cases = 0u64;
+	let mut nontrivial = 0u64;
+	let mut failures: Vec<String> = Vec::new();
+	let mut kf_reappears = 0u64;
+	let mut kf_example = String::new();
+	let mut samples: Vec<String> = Vec::new();
+	let keys: [&[u8]; 4] = [b"a", b"b", b"a", b"c"];
+	let mut placements: Vec<Option<(&'static str, u64, bool)>> = vec![None];
+	for site in ["wal_append", "wal_flush", "wal_sync"] {
+		for nth in 0..6u64 {
+			for persistent in [false, true] {
+				placements.push(Some((site, nth, persistent)));
+			}
+		}
+	}
+	for pl in placements {
+		cases += 1;
+		let dir = tempdir::TempDir::new("verif_c15").unwrap();
+		let live = dir.path().join("live");
+		let tree = TreeBuilder::new().with_path(live.clone()).with_flush_on_close(false).build().unwrap();
+		if let Some((site, nth, persistent)) = pl {
+			crate::verif_fault::arm(site, nth, persistent);
+		}
+		// model of acknowledged state; per key the set of values written by FAILED commits (must never be read)
+		let mut model: std::collections::BTreeMap<Vec<u8>, Vec<u8>> = Default::default();
+		let mut poisoned: Vec<(Vec<u8>, Vec<u8>)> = Vec::new();
+		let mut bad: Option<String> = None;
+		let mut results: Vec<String> = Vec::new();
+		for (i, k) in keys.iter().enumerate() {
+			let v = format!("v{i}").into_bytes();
+			let fut = async {
+				let mut t = tree.begin()?;
+				t.set_durability(Durability::Immediate);
+				t.set(k.to_vec(), v.clone())?;
+				t.commit().await
+			};
+			let r = match tokio::time::timeout(std::time::Duration::from_secs(20), fut).await {
+				Ok(r) => r,
+				Err(_) => {
+					bad = Some(format!("commit #{i} did not finish within 20 s after the injected fault (store hangs)"));
+					break;
+				}
+			};
+			match r {
+				Ok(()) => {
+					model.insert(k.to_vec(), v.clone());
+					results.push("ok".into());
+				}
+				Err(e) => {
+					poisoned.push((k.to_vec(), v.clone()));
+					results.push(format!("err({})", e.to_string().chars().take(40).collect::<String>()));
+				}
+			}
+			// (1) + (3) right away
+			match tree.begin() {
+				Ok(rd) => {
+					for kk in [b"a".to_vec(), b"b".to_vec(), b"c".to_vec()] {
+						match rd.get(kk.clone()) {
+							Ok(got) => {
+								if got.as_ref() != model.get(&kk) {
+									let from_failed = poisoned.iter().any(|(pk, pv)| *pk == kk && Some(pv) == got.as_ref());
+									bad = Some(format!("after commit #{i} ({}): key {} reads {:?}, acknowledged state has {:?}{}", results[i], String::from_utf8_lossy(&kk), got.as_ref().map(|b| String::from_utf8_lossy(b).to_string()), model.get(&kk).map(|b| String::from_utf8_lossy(b).to_string()), if from_failed { " (the value written by a commit that returned an error)" } else { "" }));
+								}
+							}
+							Err(e) => bad = Some(format!("after commit #{i}: get failed: {e}")),
+						}
+					}
+				}
+				Err(e) => {
+					// refusing new transactions after a failure is allowed (sticky error) - nothing more to read
+					results.push(format!("begin refused: {e}"));
+				}
+			}
+			if bad.is_some() {
+				break;
+			}
+		}
+		let hits = crate::verif_fault::disarm();
+		if hits > 0 {
+			nontrivial += 1;
+		}
+		// crash image (process crash: files as they are), reopen, compare
+		let mut reappeared: Option<String> = None;
+		if bad.is_none() {
+			let image = dir.path().join("image");
+			if copy_dir_all(&live, &image).is_err() {
+				bad = Some("harness: could not copy the directory".into());
+			} else {
+				match TreeBuilder::new().with_path(image).with_flush_on_close(false).build() {
+					Err(e) => bad = Some(format!("reopen of the crash image failed: {e}")),
+					Ok(t2) => {
+						let rd = t2.begin().unwrap();
+						for kk in [b"a".to_vec(), b"b".to_vec(), b"c".to_vec()] {
+							let got = rd.get(kk.clone()).unwrap_or(None);
+							if got.as_ref() != model.get(&kk) {
+								let from_failed = poisoned.iter().any(|(pk, pv)| *pk == kk && Some(pv) == got.as_ref());
+								let msg = format!("after crash + reopen: key {} reads {:?}, acknowledged state has {:?}{}", String::from_utf8_lossy(&kk), got.as_ref().map(|b| String::from_utf8_lossy(b).to_string()), model.get(&kk).map(|b| String::from_utf8_lossy(b).to_string()), if from_failed { " (the value written by a commit that returned an error)" } else { "" });
+								if from_failed && pl.map_or(false, |p| p.0 == "wal_sync" || p.0 == "wal_flush") {
+									reappeared = Some(msg);
+								} else {
+									bad = Some(msg);
+								}
+							}
+						}
+						drop(rd);
+						let _ = t2.close().await;
+					}
+				}
+			}
+		}
+		let _ = tree.close().await;
+		if let Some(m) = reappeared {
+			// candidate for a known finding (decided by check.py): the record of a commit whose flush / fsync failed
+			// is already in the log file and is replayed by recovery
+			kf_reappears += 1;
+			if kf_example.is_empty() {
+				kf_example = format!("{{\"fault\":\"{}\",\"commit_results\":\"{}\",\"mismatch\":{:?}}}", format!("{:?}", pl).replace('"', "'"), format!("{:?}", results).replace('"', "'"), m);
+			}
+		}
+		if let Some(b) = bad {
+			if failures.len() < 6 {
+				failures.push(format!("{{\"fault(site, calls let through, persistent)\":\"{}\",\"commit_results\":\"{}\",\"mismatch\":{:?}}}", format!("{:?}", pl).replace('"', "'"), format!("{:?}", results).replace('"', "'"), b));
+			}
+		} else if samples.len() < 3 && hits > 0 {
+			samples.push(format!("\"fault {}: commits {}\"", format!("{:?}", pl).replace('"', "'"), format!("{:?}", results).replace('"', "'")));
+		}
+	}
+	println!(
+		"REPLAY-RESULT {{\"driver\":\"commit::fault_enum\",\"cases\":{cases},\"distinct_nontrivial\":{nontrivial},\"samples\":[{}],\"kf_candidates\":{{\"F25\":{{\"count\":{kf_reappears},\"example\":{}}}}},\"failures\":[{}]}}",
+		samples.join(","),
+		if kf_example.is_empty() { "null".to_string() } else { kf_example.clone() },
+		failures.join(",")
+	);
+	assert!(failures.is_empty());
+}
